@@ -350,8 +350,36 @@ func TestC07_BufferEdgeExh(t *testing.T) {
 		}
 	}, n)
 	specC07Edge.Enumerate(t, true, func(_ *Recorder, yield func(DocCase) bool) {
+		// a one-field document whose only line (no final newline) is 4096*k-1, 4096*k, 4096*k+1 bytes long
+		for _, total := range []int{4095, 4096, 4097, 8191, 8192, 8193, 12288} {
+			for _, nl := range []string{"", "\n", "\r\n"} {
+				val := strings.Repeat("y", total-len("Only: "))
+				c := DocCase{Text: "Only: " + val + nl, Want: []ParaWant{{Order: []string{"Only"}, Values: map[string]string{"Only": val}}}, Feats: []string{"buffer-edge", "single-line-document"}}
+				if !yield(c) {
+					return
+				}
+				// ... and the same as the LAST line of a longer document (continuation line)
+				cont := strings.Repeat("z", total-1)
+				c2 := DocCase{Text: "A: b\nLong:\n " + cont + nl, Want: []ParaWant{{Order: []string{"A", "Long"}, Values: map[string]string{"A": "b", "Long": cont + "\n"}, Alt: map[string]string{"Long": "\n" + cont + "\n"}}}, Feats: []string{"buffer-edge", "long-last-line"}}
+				if !yield(c2) {
+					return
+				}
+			}
+		}
 		for _, b := range bases {
 			zero := padDoc(b, 0)
+			// the end of the text is a boundary too (documents without a final newline)
+			if !strings.HasSuffix(zero.Text, "\n") {
+				for _, mark := range []int{4096, 8192} {
+					for d := -1; d <= 1; d++ {
+						if pad := mark + d - len(zero.Text); pad >= 1 {
+							if !yield(padDoc(b, pad)) {
+								return
+							}
+						}
+					}
+				}
+			}
 			// offsets of every line end in the padded document (pad = 0)
 			for pos := 0; pos < len(zero.Text); pos++ {
 				if zero.Text[pos] != '\n' {
